@@ -59,7 +59,7 @@ def gen_case(st, tier, env):
             ops.append({"op": "unified_dataset"})
         elif r < 0.85:
             ops.append({"op": "sub_problem", "by": w.choice(["elements", "ids"]),
-                        "pick": [w.randrange(64) for _ in range(w.randint(1, 4))]})
+                        "pick": [w.randrange(64) for _ in range(w.randint(1, 4))], "foreign": w.random() < 0.3})
         elif r < 0.9:
             ops.append({"op": "consensus", "alg": w.choice(["PickAPerm", "BordaCount"])})
         elif r < 0.94:
@@ -310,7 +310,11 @@ def run_case(case, ctx):
                     continue  # stale maps are reported by the views clause
                 oks, sub = call(ds.sub_problem_from_ids, {e2i[e] for e in keep})
             else:
-                oks, sub = call(ds.sub_problem_from_elements, {Element(e) for e in keep})
+                kept = {Element(e) for e in keep}
+                if op.get("foreign"):
+                    # a name no ranking ranks: it simply is not there
+                    kept.add(Element(10 ** 6 + 3) if isinstance(univ[0], int) else Element("no-such-element"))
+                oks, sub = call(ds.sub_problem_from_elements, kept)
             want = model.renorm(model.project(before, keep))
             ctx.probe("projection_checked")
             ctx.probe("derived_checked")
